@@ -225,7 +225,7 @@ class Res:
 class Spec:
     def __init__(self, group, lean, file, qual, params, binds=None, calls=None, stmts=None, result=None,
                  ret=None, opaque=None, records=None, stores=None, path=None, expr=None, nth=0, drop=None,
-                 excs=None, reraise=None, nonneg=None, via=None, note=""):
+                 excs=None, reraise=None, nonneg=None, via=None, inert=None, note=""):
         self.group, self.lean, self.file, self.qual = group, lean, file, qual
         self.params = params              # [(python name, type)]
         self.binds = binds or []          # [(source expression text, lean/python param name, type)]
@@ -241,6 +241,7 @@ class Spec:
         self.expr, self.nth = expr, nth   # translate only the nth sub-expression with this source text (`return <expr>`)
         self.drop = drop or []            # call texts / statement text prefixes to ignore (notify(), queue.append(..))
         self.excs = excs or {}            # exception class text -> Exc constructor name (module-local classes)
+        self.inert = inert or []          # call targets allowed inside dropped calls / messages (effect-free constructors)
         self.via = via                    # name of a subclass (same module): `cls.X`/`self.X` constants are read there first
         self.nonneg = nonneg or []        # parameters/binds declared >= 0 (precondition of the cut, said in the note)
         self.reraise = reraise or {}      # name of a caught exception variable -> Lean Exc term for `raise <name>`
@@ -307,8 +308,13 @@ class FnT:
         RECORDS.clear()
         self.rec_defaults, self.rec_attr = {}, {}
         for cname, ftypes in self.spec.records.items():
-            cls = [n for n in self.module.body if isinstance(n, ast.ClassDef) and n.name == cname]
-            init = [n for n in (cls[0].body if cls else []) if isinstance(n, ast.FunctionDef) and n.name == "__init__"]
+            cls = [n for n in ast.walk(self.module) if isinstance(n, ast.ClassDef) and n.name == cname]
+            init, seen = [], 0
+            while cls and not init and seen < 6:       # `__init__` of the class or inherited from a base in the module
+                init = [n for n in cls[0].body if isinstance(n, ast.FunctionDef) and n.name == "__init__"]
+                bases = [b.id for b in cls[0].bases if isinstance(b, ast.Name)]
+                cls = [n for n in ast.walk(self.module) if isinstance(n, ast.ClassDef) and bases and n.name == bases[0]]
+                seen += 1
             if not init:
                 raise Refuse("record class %s has no __init__" % cname)
             init = init[0]
@@ -322,10 +328,17 @@ class FnT:
                     self.rec_defaults[cname][a.arg] = d.value
             amap = {}
             for st in init.body:
-                if isinstance(st, ast.Assign) and len(st.targets) == 1 and isinstance(st.targets[0], ast.Attribute) \
-                        and isinstance(st.targets[0].value, ast.Name) and st.targets[0].value.id == "self" \
-                        and isinstance(st.value, ast.Name) and st.value.id in params:
-                    amap[st.targets[0].attr] = st.value.id
+                pairs = []
+                if isinstance(st, ast.Assign) and len(st.targets) == 1:
+                    if isinstance(st.targets[0], ast.Tuple) and isinstance(st.value, ast.Tuple) \
+                            and len(st.targets[0].elts) == len(st.value.elts):
+                        pairs = list(zip(st.targets[0].elts, st.value.elts))      # `self.a, self.b = a, b`
+                    else:
+                        pairs = [(st.targets[0], st.value)]
+                for (tg, vl) in pairs:
+                    if isinstance(tg, ast.Attribute) and isinstance(tg.value, ast.Name) and tg.value.id == "self" \
+                            and isinstance(vl, ast.Name) and vl.id in params:
+                        amap[tg.attr] = vl.id
             self.rec_attr[cname] = amap
             self.spec.rec_fields[cname] = [(p, ftypes[p], ([a for a, q in amap.items() if q == p] or [None])[0])
                                            for p in params]
@@ -334,6 +347,9 @@ class FnT:
         """class named by a call target: a declared record class, or `cls` inside one"""
         if text in RECORDS:
             return text
+        if "." in text and text.split(".")[-1] in RECORDS and text.split(".")[0] in ("cls", "self") + tuple(
+                c.name for c in ast.walk(self.module) if isinstance(c, ast.ClassDef)):
+            return text.split(".")[-1]       # a class nested in a class: `cls.PFB(..)`, `DEP_REQ_RES.PFB(..)`
         if text == "cls":
             own = self.spec.qual.split(".")[0]
             if own in RECORDS:
@@ -485,11 +501,12 @@ class FnT:
             return Val(v.lean, v.ty, v.nn)
         if text.startswith("errno.") and text[6:] in ERRNO:
             return self.lit_val(ERRNO[text[6:]])
-        if isinstance(n.value, ast.Name) and n.value.id in env and isinstance(env[n.value.id].ty, tuple) \
-                and env[n.value.id].ty[0] == "rec":
-            cname = env[n.value.id].ty[1]
+        base = ast.unparse(n.value)
+        if base in env and isinstance(env[base].ty, tuple) and env[base].ty[0] == "rec":
+            # attribute of a record: a local name or a bound text (`self.pfb.did` with `self.pfb` bound)
+            cname = env[base].ty[1]
             k = self.rec_field_index(cname, n.attr)
-            return Val(self.rec_proj(env[n.value.id].lean, cname, k), RECORDS[cname][k][1])
+            return Val(self.rec_proj(env[base].lean, cname, k), RECORDS[cname][k][1])
         c = self.const_lookup(text)
         if c is None and self.spec.via and (text.startswith("cls.") or text.startswith("self.")):
             c = self.const_lookup(self.spec.via + "." + text.split(".", 1)[1])
@@ -583,6 +600,17 @@ class FnT:
             raise Refuse("int operator %s" % op)
         if a.ty == BYTES and b.ty == BYTES and op == "Add":
             return Val("(%s ++ %s)" % (a.code, b.code), BYTES)
+        def as_int_list(v):
+            if isinstance(v.ty, tuple) and v.ty[0] == "tuple" and all(x == INT for x in v.ty[1:]):
+                return Val("[" + ", ".join(self.comp(v, i).code for i in range(len(v.ty) - 1)) + "]", LIST(INT))
+            return v
+        if op == "Add" and LIST(INT) in (a.ty, b.ty) and a.ty != b.ty:
+            a, b = as_int_list(a), as_int_list(b)       # `(6, 0) + tuple(self.sys)`: only comparable afterwards
+        if isinstance(a.ty, tuple) and a.ty[0] == "list" and a.ty == b.ty and op == "Add":
+            return Val("(%s ++ %s)" % (a.code, b.code), a.ty)
+        if op == "Mult" and INT in (a.ty, b.ty) and any(isinstance(t, tuple) and t[0] == "list" for t in (a.ty, b.ty)):
+            l, k = (a, b) if a.ty != INT else (b, a)
+            return Val("(PyFn.repeatL %s %s)" % (l.code, k.code), l.ty)
         if a.ty == SET and b.ty == SET and op in ("Sub", "BitOr"):
             return Val("(PyFn.%s %s %s)" % ("setDiff" if op == "Sub" else "setUnion", a.code, b.code), SET)
         if op == "Mult" and {a.ty, b.ty} == {BYTES, INT}:
@@ -600,6 +628,11 @@ class FnT:
             ty = inner if (isinstance(inner, tuple) and inner[0] == "opt") else OPT(inner)
             a, b = self.coerce(a, ty, "conditional expression"), self.coerce(b, ty, "conditional expression")
         ty = self.join_type(a.ty, b.ty)
+        if a.ty == STR and b.ty == STR and isinstance(n.body, ast.Constant) and isinstance(n.orelse, ast.Constant) \
+                and not isinstance(c, tuple):
+            r = Val("(if %s then %s else %s)" % (c, a.code, b.code), STR)
+            r.choice = (c, n.body, n.orelse)        # a struct format chosen by a condition
+            return r
         if isinstance(c, tuple):
             self.no_mutation(pa + pb)
             t = self.temp()
@@ -674,7 +707,19 @@ class FnT:
         if isinstance(n.slice, ast.Slice):
             s = n.slice
             if s.step is not None:
-                raise Refuse("slice with a step")
+                st = self.expr(s.step, env, pre)
+                if st.lit != -1:
+                    raise Refuse("slice with a step other than -1")
+                v = self.expr(n.value, env, pre)
+                if v.ty != BYTES and not (isinstance(v.ty, tuple) and v.ty[0] == "list"):
+                    raise Refuse("slice of %s" % (v.ty,))
+                lo = self.expr(s.lower, env, pre) if s.lower is not None else None
+                hi = self.expr(s.upper, env, pre) if s.upper is not None else None
+                for x in (lo, hi):
+                    if x is not None and x.ty != INT:
+                        raise Refuse("slice bound of type %s" % (x.ty,))
+                o = lambda x: "none" if x is None else "(some %s)" % x.code
+                return Val("(PyFn.sliceRev %s %s %s)" % (v.code, o(lo), o(hi)), v.ty)
             v = self.expr(n.value, env, pre)
             if v.ty != BYTES and not (isinstance(v.ty, tuple) and v.ty[0] == "list"):
                 raise Refuse("slice of %s" % (v.ty,))
@@ -772,12 +817,12 @@ class FnT:
         if ast.unparse(n) in env and ast.unparse(n) in self.bound_names:
             v = env[ast.unparse(n)]
             return Val(v.lean, v.ty, v.nn)
-        if n.keywords:
-            raise Refuse("keyword arguments in call %s" % ast.unparse(n.func))
         text = ast.unparse(n.func)
+        if n.keywords and text not in self.spec.opaque:
+            raise Refuse("keyword arguments in call %s" % ast.unparse(n.func))
         if text in self.spec.opaque:
             pname, atys, rty, mon = self.spec.opaque[text]
-            args = [self.expr(a, env, pre) for a in n.args]
+            args = [self.expr(a, env, pre) for a in n.args] + [self.expr(k_.value, env, pre) for k_ in n.keywords]
             if [a.ty for a in args] != list(atys):
                 raise Refuse("opaque call %s: argument types %s" % (text, [a.ty for a in args]))
             code = " ".join([env[pname].lean] + [atom(a.code) for a in args])
@@ -822,6 +867,14 @@ class FnT:
             t = self.temp()
             pre.append(("bind", t, ["PyFn.indexOf [%s] %s" % (", ".join(i.code for i in items), x.code)]))
             return Val(t, INT, True)
+        if isinstance(n.func, ast.Attribute) and n.func.attr == "index" and len(n.args) == 1:
+            l = self.expr(n.func.value, env, pre)
+            if isinstance(l.ty, tuple) and l.ty[0] == "list":
+                x = self.coerce(self.expr(n.args[0], env, pre), l.ty[1], "index() argument")
+                t = self.temp()
+                pre.append(("bind", t, ["PyFn.indexOfG %s %s" % (l.code, x.code)]))
+                return Val(t, INT, True)
+            raise Refuse("index() on %s" % (l.ty,))
         if isinstance(n.func, ast.Attribute) and n.func.attr == "startswith" and len(n.args) == 1:
             x = self.expr(n.func.value, env, pre)
             y = self.expr(n.args[0], env, pre)
@@ -848,6 +901,11 @@ class FnT:
             if pn not in env or env[pn].ty != pt:
                 raise Refuse("call of %s: bound attribute %s is not available in the caller" % (lean, src))
             extra.append(env[pn].lean)
+        for text_, (opn_, _a, _r, _m) in sorted(callee.opaque.items()):
+            # function-valued parameters of the callee are passed on from the caller's own
+            if opn_ not in env or env[opn_].ty != "opaque":
+                raise Refuse("call of %s: its function parameter %s is not a function parameter of the caller" % (lean, opn_))
+            extra.append(env[opn_].lean)
         if callee.fuel:
             self.fuel = True
         code = " ".join([callee.lean] + (["fuel"] if callee.fuel else []) + [atom(a.code) for a in args] + extra)
@@ -863,11 +921,19 @@ class FnT:
             return v
         if ty == ANY:
             return Val(self.coerce_tuple_any(v), ANY)
+        if isinstance(ty, tuple) and ty[0] == "tuple" and isinstance(v.ty, tuple) and v.ty[0] == "tuple" \
+                and len(ty) == len(v.ty):
+            comps = [self.coerce(self.comp(v, i), w, what) for i, w in enumerate(ty[1:])]
+            r = Val("(" + ", ".join(c.code for c in comps) + ")", ty)
+            r.comps = comps
+            return r
         if isinstance(ty, tuple) and ty[0] == "opt":
             if v.ty == NONE:
                 return Val("(none : %s)" % lean_type(ty), ty)
             if v.ty == ty[1]:
                 return Val("(some %s)" % v.code, ty)
+            if isinstance(ty[1], tuple) and ty[1][0] == "tuple" and isinstance(v.ty, tuple) and v.ty[0] == "tuple":
+                return Val("(some %s)" % self.coerce(v, ty[1], what).code, ty)
         raise Refuse("%s has type %s, expected %s" % (what, v.ty, ty))
 
     def call_pop(self, n, env, pre):
@@ -956,8 +1022,14 @@ class FnT:
 
     def c_range(self, n, env, pre):
         args = [self.expr(x, env, pre) for x in n.args]
+        if len(args) == 3 and all(a.ty == INT for a in args):
+            t = self.temp()
+            pre.append(("bind", t, ["PyFn.rangeStep %s %s %s" % (args[0].code, args[1].code, args[2].code)]))
+            v = Val(t, LIST(INT))
+            v.elem_nn = args[0].nn and args[2].nn
+            return v
         if not all(a.ty == INT for a in args) or not 1 <= len(args) <= 2:
-            raise Refuse("range() with step or non-int bounds")
+            raise Refuse("range() with non-int bounds")
         lo = args[0] if len(args) == 2 else self.lit_val(0)
         hi = args[-1]
         v = Val("(PyFn.range %s %s)" % (lo.code, hi.code), LIST(INT))
@@ -1132,8 +1204,31 @@ class FnT:
         self.from_struct("unpack_from")
         return self.unpack_common(n, env, pre, False)
 
-    def unpack_common(self, n, env, pre, exact):
-        f = n.args[0]
+    def unpack_common(self, n, env, pre, exact, fmt_node=None):
+        f = n.args[0] if fmt_node is None else fmt_node
+        if fmt_node is None:
+            choice = None
+            if isinstance(f, ast.IfExp):
+                choice = (f.test, f.body, f.orelse)
+            elif isinstance(f, ast.Name) and f.id in env and getattr(env[f.id], "choice", None):
+                choice = env[f.id].choice
+            if choice is not None and all(isinstance(x, ast.Constant) and isinstance(x.value, str) for x in choice[1:]):
+                # `unpack(fmt1 if c else fmt2, ..)`: each format in its branch, same result type
+                c = self.cond(choice[0], env, pre) if not isinstance(choice[0], str) else choice[0]
+                p1, p2 = [], []
+                v1 = self.unpack_common(n, dict(env), p1, exact, fmt_node=choice[1])
+                v2 = self.unpack_common(n, dict(env), p2, exact, fmt_node=choice[2])
+                if v1.ty != v2.ty:
+                    raise Refuse("formats of different result types %s / %s" % (v1.ty, v2.ty))
+                self.no_mutation(p1 + p2)
+                t = self.temp()
+                r1 = self.wrap_pre(p1, Res([v1.code], False)).lifted()
+                r2 = self.wrap_pre(p2, Res([v2.code], False)).lifted()
+                pre.append(("bind", t, ["if %s then" % c] + indent(paren(r1)) + ["else"] + indent(paren(r2))))
+                r = Val(t, v1.ty)
+                if isinstance(v1.ty, tuple) and v1.ty[0] == "tuple1":
+                    r.inner = Val(t, v1.ty[1])
+                return r
         data = self.expr(n.args[1], env, pre)
         if data.ty != BYTES:
             raise Refuse("struct.unpack on %s" % (data.ty,))
@@ -1304,7 +1399,18 @@ class FnT:
         if opn in ("In", "NotIn"):
             if isinstance(rn, ast.Tuple) or isinstance(rn, ast.List):
                 items = [self.expr(e, env, pre) for e in rn.elts]
-                if not all(i.ty == a.ty for i in items) or a.ty not in (INT, STR):
+                if a.ty == LIST(INT):       # `tuple(x) in [(6, 0, 255, 255), (6, 0) + tuple(y)]`
+                    conv = []
+                    for i in items:
+                        if isinstance(i.ty, tuple) and i.ty[0] == "tuple" and all(x == INT for x in i.ty[1:]):
+                            i = Val("[" + ", ".join(self.comp(i, k).code for k in range(len(i.ty) - 1)) + "]", LIST(INT))
+                        if i.ty != LIST(INT):
+                            raise Refuse("`in` on a display with mixed types")
+                        conv.append(i)
+                    p = "(" + " ∨ ".join("%s = %s" % (a.code, i.code) for i in conv) + ")"
+                    return (p if opn == "In" else "(¬ %s)" % p), None
+                int_tuple = isinstance(a.ty, tuple) and a.ty[0] == "tuple" and all(x == INT for x in a.ty[1:])
+                if not all(i.ty == a.ty for i in items) or not (a.ty in (INT, STR) or int_tuple):
                     raise Refuse("`in` on a display with mixed types")
                 p = "(" + " ∨ ".join("%s = %s" % (a.code, i.code) for i in items) + ")"
             else:
@@ -1335,6 +1441,11 @@ class FnT:
                 p = "(%s = %s)" % (a.code, "true" if b.lit else "false")
                 return p if opn == "Is" else "(¬ %s)" % p
             return "False" if opn == "Is" else "True"      # no other declared type is the object True/False
+        if opn in ("Is", "IsNot") and a.ty == INT and b.ty == INT:
+            # identity of ints: equality for the small ints CPython caches (-5..256) - constants only
+            if b.lit is None or not -5 <= b.lit <= 256:
+                raise Refuse("`is` between ints that are not small constants")
+            return "(%s %s %s)" % (a.code, "=" if opn == "Is" else "≠", b.code)
         if opn in ("Is", "IsNot"):
             if b.ty != NONE:
                 raise Refuse("`is` with something other than None")
@@ -1486,7 +1597,7 @@ class FnT:
                     f = ast.unparse(x.func)
                     if not (f in ("hexlify", "str", "repr", "len", "hex", "format", "binascii.hexlify", "bytes", "os.strerror",
                                   "bytearray", "tuple", "list", "int", "type") or f.endswith(".format") or f.endswith(".decode")
-                            or f.endswith(".join")):
+                            or f.endswith(".join") or f in self.spec.inert):
                         raise Refuse("call of %s inside %s (line %d)" % (f, what, x.lineno))
 
     def check_inert(self, nodes, what):
@@ -1499,7 +1610,7 @@ class FnT:
                     f = ast.unparse(x.func)
                     if not (f in ("hexlify", "str", "repr", "len", "hex", "format", "binascii.hexlify", "bytes", "os.strerror",
                                   "bytearray", "tuple", "list", "int") or f.endswith(".format") or f.endswith(".decode")
-                            or f.endswith(".join")):
+                            or f.endswith(".join") or f in self.spec.inert):
                         raise Refuse("call of %s inside %s (line %d)" % (f, what, x.lineno))
 
     def s_Expr(self, s, rest, env, k):
@@ -1518,6 +1629,24 @@ class FnT:
             pre = []
             env = dict(env)
             self.expr(e, env, pre)         # evaluated for its exception, the value is discarded
+            return self.wrap_pre(pre, self.block(rest, env, k))
+        if isinstance(e, ast.Call) and isinstance(e.func, ast.Attribute) and isinstance(e.func.value, ast.Name) \
+                and e.func.value.id in env and isinstance(env[e.func.value.id].ty, tuple) \
+                and env[e.func.value.id].ty[0] == "list" and e.func.attr in ("append", "extend") and len(e.args) == 1:
+            name = e.func.value.id
+            if name in self.aliased:
+                raise Refuse("mutation of %s which may be aliased" % name)
+            pre = []
+            env = dict(env)
+            a = self.expr(e.args[0], env, pre)
+            lt = env[name].ty
+            if e.func.attr == "append":
+                a = Val("[%s]" % self.coerce(a, lt[1], "appended element").code, lt)
+            if a.ty != lt:
+                raise Refuse("%s of %s to %s" % (e.func.attr, a.ty, lt))
+            new = self.fresh(name)
+            pre.append(("let", new, ["%s ++ %s" % (env[name].lean, a.code)]))
+            env[name] = Var(new, lt)
             return self.wrap_pre(pre, self.block(rest, env, k))
         if isinstance(e, ast.Call) and isinstance(e.func, ast.Attribute) and isinstance(e.func.value, ast.Name) \
                 and e.func.value.id in env and env[e.func.value.id].ty == BYTES:
@@ -1584,6 +1713,8 @@ class FnT:
             pat = "%s : Int" % new if (v.ty == INT and re.fullmatch(r"\(?-?\d+\)?", v.code)) else new
             pre.append(("let", pat, [v.code]))
             env[target.id] = Var(new, v.ty, v.nn)
+            if getattr(v, "choice", None):
+                env[target.id].choice = v.choice
             return
         if isinstance(target, (ast.Tuple, ast.List)):
             if isinstance(v.ty, tuple) and v.ty[0] == "tuple1":
@@ -1637,6 +1768,20 @@ class FnT:
             pre.append(("let", new, [self.rec_build(cname, comps)]))
             env[name] = Var(new, REC(cname))
             return
+        if isinstance(target, ast.Subscript) and isinstance(target.value, ast.Name) and isinstance(target.slice, ast.Slice) \
+                and target.slice.step is None:
+            name = target.value.id
+            if name not in env or env[name].ty != BYTES or v.ty != BYTES:
+                raise Refuse("slice assignment on %s" % name)
+            if name in self.aliased:
+                raise Refuse("mutation of %s which may be aliased" % name)
+            sl = target.slice
+            lo = self.expr(sl.lower, env, pre) if sl.lower is not None else self.lit_val(0)
+            hi = self.expr(sl.upper, env, pre) if sl.upper is not None else Val("(PyFn.len %s)" % env[name].lean, INT)
+            new = self.fresh(name)
+            pre.append(("let", new, ["PyFn.setSlice %s %s %s %s" % (env[name].lean, lo.code, hi.code, v.code)]))
+            env[name] = Var(new, BYTES)
+            return
         raise Refuse("assignment target %s" % ast.unparse(target))
 
     def s_Assign(self, s, rest, env, k):
@@ -1662,6 +1807,18 @@ class FnT:
             env.pop(tgt.id, None)
             return self.wrap_pre(pre, self.block(rest, env, k))
         if isinstance(tgt, ast.Tuple) and isinstance(s.value, ast.Tuple) and len(tgt.elts) == len(s.value.elts) \
+                and not all(isinstance(e, ast.Name) for e in tgt.elts):
+            # `a, (b, c) = x, y`: all right-hand sides first, then each target
+            vs = [self.expr(e, env, pre) for e in s.value.elts]
+            tmps = []
+            for v in vs:
+                t = self.temp()
+                pre.append(("let", t, [v.code]))
+                tmps.append(Val(t, v.ty, v.nn))
+            for e, v in zip(tgt.elts, tmps):
+                self.bind_target(e, v, env, pre)
+            return self.wrap_pre(pre, self.block(rest, env, k))
+        if isinstance(tgt, ast.Tuple) and isinstance(s.value, ast.Tuple) and len(tgt.elts) == len(s.value.elts) \
                 and all(isinstance(e, ast.Name) for e in tgt.elts):
             # `a, b = x, y`: evaluate all right-hand sides first
             vs = [self.expr(e, env, pre) for e in s.value.elts]
@@ -1679,6 +1836,17 @@ class FnT:
 
     def s_AugAssign(self, s, rest, env, k):
         if isinstance(s.target, ast.Attribute) and ast.unparse(s.target) in self.spec.stores:
+            load = ast.parse(ast.unparse(s.target), mode="eval").body
+            new = ast.Assign(targets=[s.target], value=ast.BinOp(left=load, op=s.op, right=s.value))
+            ast.copy_location(new, s)
+            ast.fix_missing_locations(new)
+            return self.s_Assign(new, rest, env, k)
+        if isinstance(s.target, ast.Subscript) and isinstance(s.target.value, ast.Name) \
+                and not isinstance(s.target.slice, ast.Slice):
+            chk = []
+            self.expr(s.target.slice, dict(env), chk)
+            if chk:
+                raise Refuse("augmented item assignment with effects in the index (line %d)" % s.lineno)
             load = ast.parse(ast.unparse(s.target), mode="eval").body
             new = ast.Assign(targets=[s.target], value=ast.BinOp(left=load, op=s.op, right=s.value))
             ast.copy_location(new, s)
@@ -1716,7 +1884,7 @@ class FnT:
             return v.code
         if want == ANY:
             self.rtys.append(ANY)
-            return self.coerce_any(v)
+            return self.coerce_tuple_any(v)
         if isinstance(want, tuple) and want[0] == "opt":
             self.rtys.append(want)
             return self.coerce(v, want, "return value").code
@@ -1758,6 +1926,14 @@ class FnT:
             if self.loops:
                 raise Refuse("return inside a loop of a result= cut (line %d)" % s.lineno)
             return self.k_end(env)      # a bare `return` inside a `result=` cut: the result variables as they are now
+        if isinstance(s.value, ast.IfExp) and self.spec.ret is not None:
+            # `return X if c else Y`  ==  `if c: return X else: return Y` (the branches may differ in type)
+            r1, r2 = ast.Return(value=s.value.body), ast.Return(value=s.value.orelse)
+            new = ast.If(test=s.value.test, body=[r1], orelse=[r2])
+            for x in (r1, r2, new):
+                ast.copy_location(x, s)
+            ast.fix_missing_locations(new)
+            return self.s_If(new, [], env, k)
         pre = []
         env = dict(env)
         v = self.expr(s.value, env, pre) if s.value is not None else self.lit_val(None)
@@ -2182,9 +2358,20 @@ class FnT:
         local = [n for n in body_assigned if n not in env]
         # the loop variable is read behind the loop: carried in the state; only for `range(a, b)` with literal
         # bounds a < b, so that it is certainly bound (its initial value is overwritten by the first iteration)
-        used_after = s.target.id in (self.spec.result or []) or any(
-            isinstance(x, ast.Name) and x.id == s.target.id and isinstance(x.ctx, ast.Load)
-            for st in rest for x in ast.walk(st))
+        def reads(node, name):
+            return any(isinstance(x, ast.Name) and x.id == name and isinstance(x.ctx, ast.Load) for x in ast.walk(node))
+
+        used_after = s.target.id in (self.spec.result or [])
+        for st in rest:
+            if isinstance(st, ast.For) and isinstance(st.target, ast.Name) and st.target.id == s.target.id \
+                    and not reads(st.iter, s.target.id):
+                break        # rebound by the next loop before any read
+            if isinstance(st, ast.Assign) and len(st.targets) == 1 and isinstance(st.targets[0], ast.Name) \
+                    and st.targets[0].id == s.target.id and not reads(st.value, s.target.id):
+                break
+            if reads(st, s.target.id):
+                used_after = True
+                break
         keep_var = False
         if used_after and s.target.id not in state:
             it_n = s.iter
@@ -2288,8 +2475,13 @@ class FnT:
         return Res(lines + r.lifted(), True)
 
     def s_Try(self, s, rest, env, k):
-        if s.finalbody or s.orelse or len(s.handlers) != 1:
+        if s.finalbody or len(s.handlers) != 1:
             raise Refuse("try statement shape (line %d)" % s.lineno)
+        if s.orelse:
+            # `try: A except E: raise X else: B`  ==  the try statement followed by B (B is not guarded)
+            if self.has_return(s.body) or self.terminates(s.body):
+                raise Refuse("try/else whose body returns (line %d)" % s.lineno)
+            rest = list(s.orelse) + rest
         h = s.handlers[0]
         if h.type is None:
             raise Refuse("bare except (line %d)" % s.lineno)
@@ -2302,6 +2494,16 @@ class FnT:
             caught.append("Exc" + HANDLER_MAP[nm])
         hb = [x for x in h.body if not (isinstance(x, ast.Assign) and self.inert_assign(x))
               and not (isinstance(x, ast.Expr) and self.is_log_call(x.value))]
+        if len(hb) == 1 and isinstance(hb[0], ast.Return) and self.terminates(s.body) and not rest and not self.loops:
+            # `try: <body ending in return> except E: return V`
+            hp = []
+            hv = self.expr(hb[0].value, dict(env), hp) if hb[0].value is not None else self.lit_val(None)
+            if hp:
+                raise Refuse("effects in the value returned by an except handler (line %d)" % s.lineno)
+            hcode = self.ret_value(hv)
+            body = self.block(s.body, env, k)
+            catches = "(fun e => %s)" % " || ".join("e == %s" % c for c in caught)
+            return Res(["PyFn.catchRet %s %s" % (catches, atom(hcode))] + indent(paren(body.lifted())), True)
         if len(hb) != 1 or not isinstance(hb[0], ast.Raise) or hb[0].exc is None:
             raise Refuse("except handler that is not a single raise (line %d)" % s.lineno)
         hpre = []
@@ -2618,6 +2820,19 @@ def pSet (s : String) : Option (List Int) := if s = "-" then some [] else (s.spl
 def pOpt {α} (p : String → Option α) (s : String) : Option (Option α) := if s = "None" then some none else (p s).map some
 def pListOf {α} (p : String → Option α) (s : String) : Option (List α) :=
   if s = "[]" then some [] else (s.splitOn "|").mapM p
+/-- deterministic stand-ins for function-valued (opaque) parameters; harness/translate_fn_selftest.py has the same -/
+def stubHash (seed : Nat) (args : List Int) : Nat :=
+  args.foldl (fun h x => (h * 31 + (x % 65521).toNat + 7) % 65521) (seed * 1009 % 65521)
+def stubBytesPure (seed : Nat) (args : List Int) : Bytes :=
+  let h := stubHash seed args
+  (List.range (h % 5)).map (fun i => (h / (i + 1)) % 256)
+def stubIntPure (seed : Nat) (args : List Int) : Int := ((stubHash seed args % 300 : Nat) : Int) - 20
+def stubBytes (seed : Nat) (args : List Int) : Py Bytes :=
+  let h := stubHash seed args
+  if h % 11 = 0 then .error .index else if h % 11 = 1 then .error (.tagCmd 1) else .ok (stubBytesPure seed args)
+def stubInt (seed : Nat) (args : List Int) : Py Int :=
+  let h := stubHash seed args
+  if h % 11 = 0 then .error .index else .ok (stubIntPure seed args)
 def fuelDefault : Nat := 100000
 """
 
@@ -2634,7 +2849,9 @@ def emit_driver(specs, out_dir):
           "namespace NfcVerif.Gen.FnDispatch", "open NfcVerif", DRIVER_PRELUDE,
           "def run (name : String) (args : List String) : String :=", "  match name, args with"]
     for sp in specs:
-        if sp.refused or sp.opaque:
+        if sp.refused:
+            continue
+        if sp.opaque and not all(set(a) <= {INT, BYTES, BOOL} and r in (INT, BYTES) for (_, a, r, _) in sp.opaque.values()):
             continue
         ptys = [t for _, t in sp.params] + [t for (_, _, t) in sp.binds]
         RECORDS.clear()
@@ -2648,7 +2865,14 @@ def emit_driver(specs, out_dir):
         n = len(ptys)
         avars = ["a%d" % i for i in range(n)]
         xvars = ["x%d" % i for i in range(n)]
-        call = " ".join(["Gen.Fn." + sp.lean] + (["fuelDefault"] if sp.fuel else []) + xvars)
+        stubs = []
+        for k_, (text_, (pn_, atys_, rty_, mon_)) in enumerate(sorted(sp.opaque.items())):
+            vs_ = ["o%d" % i for i in range(len(atys_))]
+            enc_ = " ++ ".join({INT: "[%s]", BOOL: "[if %s then 1 else 0]", BYTES: "(PyFn.ints %s)"}[t_] % v_
+                               for t_, v_ in zip(atys_, vs_)) or "[]"
+            fn_ = {BYTES: "stubBytes", INT: "stubInt"}[rty_] + ("" if mon_ else "Pure")
+            stubs.append("(fun %s => %s %d (%s))" % (" ".join(vs_) or "_", fn_, k_ + 1, enc_))
+        call = " ".join(["Gen.Fn." + sp.lean] + (["fuelDefault"] if sp.fuel else []) + xvars + stubs)
         if sp.mon:
             body = '(match %s with | .ok v => "ok " ++ %s | .error e => "exc " ++ e.name)' % (call, rend)
         else:
